@@ -30,6 +30,9 @@ def value_bytes(vtype, value):
     if vtype == T_DOUBLE:
         return struct.pack("<d", value)
     if vtype == T_BOOL:
+        # a boolean is a 32-bit word, true for any non-zero value; ("raw", word) stores that word
+        if isinstance(value, tuple):
+            return struct.pack("<I", value[1])
         return struct.pack("<I", 1 if value else 0)
     if vtype == T_STRING:
         b = value.encode("utf-16-le")
@@ -85,6 +88,10 @@ def build(tables, file_objects=None, *, hdr_seqs=(2, 1), sigs=None, version=0x40
         out[off] = data.ljust(osize, b"\0")
         objs.append((OBJ_FILE, off, osize, 1))
     objs += list(extra_objects)
+    if chain_rng is not None and objs:
+        # released slots (allocated = 0) anywhere between the live ones: they are skipped, not an end marker
+        for _ in range(chain_rng.randrange(0, 3)):
+            objs.insert(chain_rng.randrange(0, len(objs) + 1), (chain_rng.choice([OBJ_KEYTAB, OBJ_FILE, OBJ_OBJTAB]), chain_rng.choice([0, 0x7000, 0x123000]), 0x1000, 0))
     more_objtabs = dict(more_objtabs or {})
     if chain > 1 and len(objs) >= chain:
         # distribute the objects over a chain of object tables: table i lists its share and the next object table
@@ -143,7 +150,7 @@ def plan_tables(nodes, *, ntables_free=(), stale=(), newer_first=True, big_thres
                 fsz = 21 + (pad_rng.randrange(0, 40) if pad_rng else 11)
                 seq_entries.append(("free", fsz))
                 cur += fsz
-            payload = value_bytes(n["type"], n["value"])
+            payload = value_bytes(n["type"], n.get("stored", n["value"]))
             flags = 0
             if n["type"] in (T_STRING, T_ARRAY) and len(payload) - 4 >= big_threshold:
                 data = payload[4:]
